@@ -317,6 +317,11 @@ func (gen *Generator) GenerateDefmac(args []Sexp, orig Sexp) error {
 	if isBuiltin {
 		return fmt.Errorf("'%s' is already a built-in function, cannot define macro with same name.", sym.name)
 	}
+	// a call whose head is a special form is compiled as that form;
+	// a macro of that name would be defined but never called.
+	if specialForms[sym.name] {
+		return fmt.Errorf("'%s' is a special form, cannot define macro with same name.", sym.name)
+	}
 
 	xpr, err, _ := gen.env.LexicalLookupSymbol(sym, nil)
 	if err == nil {
@@ -640,6 +645,17 @@ func (gen *Generator) GenerateInclude(args []Sexp) error {
 	}
 
 	return nil
+}
+
+// specialForms are the heads that GenerateCallBySymbol compiles
+// itself, before it looks for a macro or a function of that name.
+var specialForms = map[string]bool{
+	"and": true, "or": true, "cond": true, "quote": true, "def": true,
+	"mdef": true, "fn": true, "defn": true, "begin": true, "let": true,
+	"letseq": true, "assert": true, "defmac": true, "macexpand": true,
+	"syntaxQuote": true, "include": true, "for": true, "set": true,
+	"break": true, "continue": true, "newScope": true, "package": true,
+	"return": true, "_ls": true,
 }
 
 func (gen *Generator) GenerateCallBySymbol(sym *SexpSymbol, args []Sexp, orig Sexp) error {
